@@ -307,3 +307,140 @@ func whatAFunctionCountsUpItCountsDownOnEveryWayOut(c *core.Ctx) {
 	}
 	c.Stat("paired_counter_increments", n)
 }
+
+// ---------------------------------------------------------------------------
+// aCaseForATypeCanBeReachedByAValueOfThatType (C15): Equals and Compare of a
+// script type decide by the dynamic type of the other operand, in a type
+// switch, and some first look at other.Type().  The two must agree: a case
+// `*T` that sits behind a test of other.Type() which a T does not pass never
+// runs, and the pair (receiver, T) silently falls to "not equal" on this side
+// while the other side still says "equal" - == is no longer symmetric and no
+// longer agrees with <= and >=.  Decided by walking the SSA blocks of each
+// such method under the one assumption other.Type() == the constant that
+// (*T).Type returns: a test of other.Type() against a constant takes the one
+// branch the assumption gives, every other branch is taken both ways, and the
+// block that asserts other to *T must be reached.
+func typeConstOf(p *core.Program, t *types.Named) (string, bool) {
+	for fn := range p.AllFunctions() {
+		if fn.Name() != "Type" || fn.Signature.Recv() == nil || fn.Blocks == nil || fn.Synthetic != "" {
+			continue
+		}
+		rt := fn.Signature.Recv().Type()
+		if pt, ok := rt.(*types.Pointer); ok {
+			rt = pt.Elem()
+		}
+		if core.NamedOf(rt) != t {
+			continue
+		}
+		val, n := "", 0
+		for _, b := range fn.Blocks {
+			for _, in := range b.Instrs {
+				if r, ok := in.(*ssa.Return); ok && len(r.Results) == 1 {
+					k, ok := r.Results[0].(*ssa.Const)
+					if !ok || k.Value == nil {
+						return "", false
+					}
+					if n > 0 && val != k.Value.ExactString() {
+						return "", false
+					}
+					val = k.Value.ExactString()
+					n++
+				}
+			}
+		}
+		return val, n > 0
+	}
+	return "", false
+}
+
+func aCaseForATypeCanBeReachedByAValueOfThatType(c *core.Ctx) {
+	p := c.P
+	objP := p.Pkg("object")
+	n := 0
+	for _, fn := range repoFns(p, "object") {
+		if (fn.Name() != "Equals" && fn.Name() != "Compare") || fn.Signature.Recv() == nil || len(fn.Params) != 2 {
+			continue
+		}
+		other := fn.Params[1]
+		if _, ok := other.Type().Underlying().(*types.Interface); !ok {
+			continue
+		}
+		isTypeCall := func(v ssa.Value) bool {
+			cl, ok := v.(*ssa.Call)
+			return ok && cl.Call.IsInvoke() && cl.Call.Method.Name() == "Type" && cl.Call.Value == ssa.Value(other)
+		}
+		done := map[*types.Named]bool{}
+		for _, b := range fn.Blocks {
+			for _, in := range b.Instrs {
+				ta, ok := in.(*ssa.TypeAssert)
+				if !ok || ta.X != ssa.Value(other) {
+					continue
+				}
+				at := ta.AssertedType
+				if pt, ok := at.(*types.Pointer); ok {
+					at = pt.Elem()
+				}
+				T := core.NamedOf(at)
+				if T == nil || T.Obj().Pkg() != objP.Types || done[T] {
+					continue
+				}
+				K, ok := typeConstOf(p, T)
+				if !ok {
+					continue
+				}
+				done[T] = true
+				// every block that asserts other to *T
+				goal := map[*ssa.BasicBlock]bool{}
+				for _, b2 := range fn.Blocks {
+					for _, in2 := range b2.Instrs {
+						if ta2, ok := in2.(*ssa.TypeAssert); ok && ta2.X == ssa.Value(other) && types.Identical(ta2.AssertedType, ta.AssertedType) {
+							goal[b2] = true
+						}
+					}
+				}
+				seen := map[*ssa.BasicBlock]bool{fn.Blocks[0]: true}
+				work := []*ssa.BasicBlock{fn.Blocks[0]}
+				reached := false
+				for len(work) > 0 && !reached {
+					cur := work[len(work)-1]
+					work = work[:len(work)-1]
+					if goal[cur] {
+						reached = true
+						break
+					}
+					succs := cur.Succs
+					if len(cur.Instrs) > 0 {
+						if iff, ok := cur.Instrs[len(cur.Instrs)-1].(*ssa.If); ok {
+							if bo, ok := iff.Cond.(*ssa.BinOp); ok && (bo.Op == token.EQL || bo.Op == token.NEQ) {
+								var k *ssa.Const
+								if isTypeCall(bo.X) {
+									k, _ = bo.Y.(*ssa.Const)
+								} else if isTypeCall(bo.Y) {
+									k, _ = bo.X.(*ssa.Const)
+								}
+								if k != nil && k.Value != nil {
+									eq := k.Value.ExactString() == K
+									if (bo.Op == token.EQL) == eq {
+										succs = cur.Succs[:1]
+									} else {
+										succs = cur.Succs[1:2]
+									}
+								}
+							}
+						}
+					}
+					for _, su := range succs {
+						if !seen[su] {
+							seen[su] = true
+							work = append(work, su)
+						}
+					}
+				}
+				n++
+				c.Check(reached, core.SSAName(fn)+"|case:"+T.Obj().Name()+"|reachable-by-a-"+T.Obj().Name(), p.Pos(ta.Pos()),
+					core.SSAName(fn)+" has a case for *"+T.Obj().Name()+ife(reached, " that a value of that type reaches", " that no value of that type reaches: the tests of other.Type() before it turn away "+K+", so this side of the comparison answers as for an unrelated type while the other side still compares the values"))
+			}
+		}
+	}
+	c.Stat("type_cases_in_equals_and_compare", n)
+}
